@@ -18,6 +18,7 @@ package main
 //   has    S P             navigation TopLevelBucket(n1).Bucket(n2)… != nil
 //   put S P K V | get S P K | del S P K | clear S P | prefix S P K | names S P
 //   iter S P START LIMIT SCRIPT     SCRIPT = comma separated steps: n (Next) | s<hex> (Seek) | a (Next until false)
+//   iterp S P PREFIX SCRIPT         the same on bucket.NewIterator(db.BytesPrefix(PREFIX))
 //
 // S = w|r (transaction slot), P = "/" (transaction level) or hex bucket names joined by "/",
 // K/V/START/LIMIT hex ("-" = empty).  Every data op navigates from the transaction again (no
@@ -300,6 +301,10 @@ func kvIter(b db.Bucket, start, limit []byte, script string) string {
 	if len(start) != 0 || len(limit) != 0 || len(script)%2 == 0 {
 		rg = &db.Range{Start: start, Limit: limit}
 	}
+	return kvIterRange(b, rg, script)
+}
+
+func kvIterRange(b db.Bucket, rg *db.Range, script string) string {
 	it := b.NewIterator(rg)
 	defer it.Release()
 	var out []string
@@ -616,6 +621,12 @@ func (x *kvExec) Exec(a []string) string {
 			return kvErr(err)
 		}
 		return kvEntries(es, write)
+	case "iterp":
+		pre, ok1 := arg(3)
+		if len(a) != 5 || !ok1 {
+			return "bad-op"
+		}
+		return kvIterRange(b, db.BytesPrefix(pre), a[4])
 	case "iter":
 		s, ok1 := arg(3)
 		l, ok2 := arg(4)
